@@ -43,21 +43,28 @@ def run_out(ctx, R, F):
         if fld in ('left', 'right') and d == 'core::f32::<impl f32>::clamp(_%d.%s, -1.0, 1.0)' % (s['lhs']['l'], fld):
             cands.setdefault(s['lhs']['l'], {})[fld] = (bb, si)
     frames = [l for l, m in cands.items() if set(m) == {'left', 'right'}]
-    ok = len(frames) == 1
-    R.check(ok, 'B.C01.range', 'clamp', 'no Frame local has both left and right replaced by clamp(-1.0, 1.0) before conversion (found %s)'
-            % {l: sorted(m) for l, m in cands.items()},
-            detail='frame.left = frame.left.clamp(-1.0, 1.0); frame.right likewise', where=b.file)
-    if not ok:
-        return
-    fl = frames[0]
-    clamp_sites = set(cands[fl].values())
-    cl, cr = cands[fl]['left'][0], cands[fl]['right'][0]
-    other_frame_stores = []
-    for bb, si, s in b.stmts():
-        if s['k'] == 'assign' and s['lhs']['l'] == fl and (bb, si) not in clamp_sites:
-            other_frame_stores.append((bb, pretty_place(b, s['lhs']), describe_rv(b, s['rv'], depth=3, at=bb)))
-    late = [x for x in other_frame_stores if not (b.dominates(x[0], cl) and b.dominates(x[0], cr))]
-    R.check(not late, 'B.C01.range', 'no-late-writes', 'frame is written again after the clamp: %s' % late[:2], detail='no store to frame after the clamps')
+    # two forms: the frame's channels are clamped in place (`frame.left = frame.left.clamp(-1.0, 1.0)`), or the clamped
+    # channels are values of their own (`let left = frame.left.clamp(-1.0, 1.0)`) - then the stored values say so themselves
+    import re as _re
+    inplace = len(frames) == 1
+    fl = frames[0] if inplace else None
+    CL = _re.compile(r'core::f32::<impl f32>::clamp\(((?:[^(),]|\([^()]*\))+)\.(left|right), -1\.0, 1\.0\)')
+
+    def canon(d):
+        if inplace:
+            d = d.replace('_%d.left' % fl, 'L').replace('_%d.right' % fl, 'R')
+        else:
+            d = CL.sub(lambda m: 'L' if m.group(2) == 'left' else 'R', d)
+        return d
+    if inplace:
+        clamp_sites = set(cands[fl].values())
+        cl, cr = cands[fl]['left'][0], cands[fl]['right'][0]
+        other_frame_stores = []
+        for bb, si, s in b.stmts():
+            if s['k'] == 'assign' and s['lhs']['l'] == fl and (bb, si) not in clamp_sites:
+                other_frame_stores.append((bb, pretty_place(b, s['lhs']), describe_rv(b, s['rv'], depth=3, at=bb)))
+        late = [x for x in other_frame_stores if not (b.dominates(x[0], cl) and b.dominates(x[0], cr))]
+        R.check(not late, 'B.C01.range', 'no-late-writes', 'frame is written again after the clamp: %s' % late[:2], detail='no store to frame after the clamps')
     # 2. every store into the device chunk: in the body, and in closures handed to calls of the body
     n = 0
     stores = [(bb, s, None) for bb, s in device_stores(b)]
@@ -65,17 +72,24 @@ def run_out(ctx, R, F):
         for c in closure_args(F, b, t):
             for cbb, s in device_stores(c):
                 stores.append((bb, s, c))
-    allowed = {'_%d.left' % fl: 'left', '_%d.right' % fl: 'right', 'Div(Add(_%d.left, _%d.right), 2.0)' % (fl, fl): 'mean', '0.0': 'zero'}
+    allowed = {'L': 'left', 'R': 'right', 'Div(Add(L, R), 2.0)': 'mean', '0.0': 'zero'}
 
     def value_of(bb, s, c):
-        return describe_rv(c if c is not None else b, s['rv'], depth=4, at=bb if c is None else None)
+        return canon(describe_rv(c if c is not None else b, s['rv'], depth=4 if inplace else 7, at=bb if c is None else None))
+    vals = [value_of(bb, s, c) for bb, s, c in stores if c is None]
+    R.check(inplace or ('L' in vals and 'R' in vals), 'B.C01.range', 'clamp',
+            'neither is a Frame local clamped in place (left and right replaced by clamp(-1.0, 1.0)) before the conversion, nor are the values '
+            'written to the device the clamped channels themselves (in-place candidates %s, values %s)' % ({l: sorted(m) for l, m in cands.items()}, [v[:50] for v in vals][:4]),
+            detail='frame.left = frame.left.clamp(-1.0, 1.0); frame.right likewise', where=b.file)
+    if not (inplace or ('L' in vals and 'R' in vals)):
+        return
     for bb, s, c in stores:
         n += 1
         d = value_of(bb, s, c)
         kind = allowed.get(d)
         if c is not None and kind != 'zero':
             kind = None  # a closure does not see the clamped frame
-        dom = kind == 'zero' or (b.dominates(cl, bb) and b.dominates(cr, bb))
+        dom = kind == 'zero' or not inplace or (b.dominates(cl, bb) and b.dominates(cr, bb))
         R.check(kind is not None and dom, 'B.C01.range', 'store#%d:%s' % (n, kind or 'other'),
                 'the device buffer receives %s%s: not a clamped channel, the mean of the two clamped channels, or 0.0' % (d[:100], '' if dom else ' (not after the clamp)'),
                 detail={'value': d, 'range': '[-1, 1] or NaN' if kind != 'zero' else '0'}, where=b.where(bb))
@@ -111,9 +125,9 @@ def run_out(ctx, R, F):
         return out, reach
     mono, _ = idx_stores(mono_t)
     multi, mreach = idx_stores(multi_t)
-    R.check(mono == {0: 'Div(Add(_%d.left, _%d.right), 2.0)' % (fl, fl)}, 'B.C01.cover', 'mono',
+    R.check(mono == {0: 'Div(Add(L, R), 2.0)'}, 'B.C01.cover', 'mono',
             'with one channel the sample is %s, not the mean of left and right at index 0' % mono, detail=mono)
-    okm = multi.get(0) == '_%d.left' % fl and multi.get(1) == '_%d.right' % fl and multi.get('*') == '0.0'
+    okm = multi.get(0) == 'L' and multi.get(1) == 'R' and multi.get('*') == '0.0'
     R.check(okm, 'B.C01.cover', 'multi', 'with several channels the stores are %s (expected [0]=left, [1]=right, rest=0.0)' % multi, detail={str(k): v for k, v in multi.items()})
     # the "rest": the zero store runs for every element of channels.iter_mut().skip(2) -- as the body of a loop over
     # that iterator, or as the closure of an iterator consumer (for_each) called on it
